@@ -104,6 +104,7 @@ type World struct {
 	Trusted  map[string]bool // trusted-base notes collected during a run
 	Abstr    map[string]bool // abstracted calls
 	Unsup    map[string]bool // unsupported constructs encountered
+	roMaps    map[types.Object]*roMap
 	addrTaken map[*types.Var]bool
 }
 
@@ -625,6 +626,9 @@ func (ex *Exec) heap(st *State, name, srt string) *Term {
 		}
 	}
 	for _, lh := range st.held {
+		if lh == nil || lh.snap == nil {
+			continue
+		}
 		if _, ok := lh.snap.heaps[name]; !ok {
 			lh.snap.heaps[name] = t
 		}
@@ -787,4 +791,48 @@ func (ex *Exec) tagHyp(t *Term, label string) {
 			ex.tagHyp(a, label)
 		}
 	}
+}
+
+// ---------------------------------------------------------------------
+// maps: a value heap Map$K$V (ref -> key -> value) and a presence heap
+// MapHas$K$V (ref -> key -> Bool).  By convention an absent key maps to the
+// zero value in the value heap (stores and deletes maintain it; for maps that
+// come from outside it is assumed at each read - it is how Go reads behave).
+
+func (ex *Exec) mapHeaps(st *State, m *types.Map) (vn, hn string, vh, hh *Term) {
+	ks, es := ex.sortOf(m.Key()), ex.sortOf(m.Elem())
+	vn = "Map$" + smtName(ks) + "$" + smtName(es)
+	hn = "MapHas$" + smtName(ks) + "$" + smtName(es)
+	vh = ex.heap(st, vn, arrSort(SInt, arrSort(ks, es)))
+	hh = ex.heap(st, hn, arrSort(SInt, arrSort(ks, SBool)))
+	return
+}
+
+func (ex *Exec) mapHas(st *State, m *types.Map, ref, key *Term) *Term {
+	_, _, _, hh := ex.mapHeaps(st, m)
+	return and(not(eq(ref, intLit(0))), sel(sel(hh, ref), key))
+}
+
+func (ex *Exec) mapStore(st *State, m *types.Map, ref, key, val *Term) {
+	vn, hn, vh, hh := ex.mapHeaps(st, m)
+	st.heaps[vn] = store(vh, ref, store(sel(vh, ref), key, val))
+	st.heaps[hn] = store(hh, ref, store(sel(hh, ref), key, tTrue))
+}
+
+func (ex *Exec) mapDelete(st *State, m *types.Map, ref, key *Term) {
+	vn, hn, vh, hh := ex.mapHeaps(st, m)
+	z := ex.zero(m.Elem())
+	if z.Term != nil {
+		st.heaps[vn] = store(vh, ref, store(sel(vh, ref), key, z.Term))
+	}
+	st.heaps[hn] = store(hh, ref, store(sel(hh, ref), key, tFalse))
+}
+
+// mapInitEmpty makes ref an empty map: no key present.  (The value row is
+// left as it is: reads of absent keys are pinned to zero at the read.)
+func (ex *Exec) mapInitEmpty(st *State, m *types.Map, ref *Term) {
+	_, hn, _, hh := ex.mapHeaps(st, m)
+	ks := ex.sortOf(m.Key())
+	empty := &Term{Op: "((as const " + arrSort(ks, SBool) + ") false)", S: arrSort(ks, SBool)}
+	st.heaps[hn] = store(hh, ref, empty)
 }
